@@ -283,4 +283,32 @@ theorem interpFrom_inside (x : K) : ∀ (p q : K × K) (r : List (K × K)), Stri
       · rw [if_pos hpx, ← hpx]; simp
       · rw [if_neg hpx]; field_simp; ring
 
+/-! ### the default parameters of `snap_pl` -/
+
+theorem minOf_le : ∀ (ys : List K) (x : K), minOf x ys ≤ x
+  | [], x => le_refl x
+  | y :: ys, x => by
+    show minOf (if y < x then y else x) ys ≤ x
+    refine le_trans (minOf_le ys _) ?_
+    split
+    · rename_i h; exact h.le
+    · exact le_refl x
+
+theorem le_maxOf : ∀ (ys : List K) (x : K), x ≤ maxOf x ys
+  | [], x => le_refl x
+  | y :: ys, x => by
+    show x ≤ maxOf (if x < y then y else x) ys
+    refine le_trans ?_ (le_maxOf ys _)
+    split
+    · rename_i h; exact h.le
+    · exact le_refl x
+
+theorem le_foldMax : ∀ (r : List (Grid K)) (n : Nat),
+    n ≤ r.foldl (fun m q => if m < q.numSteps then q.numSteps else m) n
+  | [], n => le_refl n
+  | q :: r, n => by
+    show n ≤ r.foldl _ (if n < q.numSteps then q.numSteps else n)
+    refine le_trans ?_ (le_foldMax r _)
+    split <;> omega
+
 end PersimVerif.PLArith
